@@ -48,6 +48,7 @@ RecState::RecState() {
         else if (key == "constt") { have_constt = true; constt = parse_ints(is); }
         else if (key == "iisvar") { have_iisvar = true; iisvar = parse_ints(is); }
         else if (key == "iiscon") { have_iiscon = true; iiscon = parse_ints(is); }
+        else if (key.rfind("sens_", 0) == 0 || key == "ray" || key == "dray") sens[key] = parse_dbls(is);
         else if (key == "iiscong") { int g = -1; is >> g; have_iiscon = true; iiscon_g[g] = parse_ints(is); }
         else if (key == "throw") is >> throw_in_solve;
       }
